@@ -263,6 +263,33 @@ def paths_of(kind: str, ans: Any) -> Any:
 	return ans
 
 
+def _leaf(name: str, value: str) -> dict[str, Any]:
+	return {'name': name, 'value': value}
+
+
+# hand-made trees: unique (un-indexed) sibling tags where one tag textually extends its predecessor, in both orders, at two depths;
+# a parent with 12 same-tag children (two-digit indexes) whose last child has children; empty placeholders between them
+EXPLICIT_TREES = [
+	{'name': 'file_input', 'children': [
+		{'name': 'item', 'children': [_leaf('name', 'a')]},
+		{'name': 'item_list', 'children': [_leaf('name', 'b'), _leaf('name', 'c')]},
+		{'name': 'arg1', 'children': []},
+		{'name': 'arg10', 'children': [_leaf('value', 'd')]},
+		{'name': 'block', 'children': [
+			{'name': 'list', 'children': []},
+			{'name': 'list_comp', 'children': [_leaf('name', 'n'), {'name': 'list', 'children': [_leaf('name', 'm')]}, {'name': 'list_x', 'children': [_leaf('name', 'k')]}]},
+			{'name': 'lis', 'children': [_leaf('name', 'z')]},
+		]},
+		{'name': 'x_y', 'children': [_leaf('name', 'e')]},
+		{'name': 'x', 'children': [_leaf('name', 'f')]},
+	]},
+	{'name': 'file_input', 'children': [
+		{'name': 'block', 'children': [_leaf('stmt', f's{i}') if i % 5 else None for i in range(12)] + [{'name': 'stmt', 'children': [_leaf('name', 'last'), None]}]},
+		{'name': 'blocks', 'children': [{'name': 'stmt', 'children': [_leaf('name', f'n{i}'), _leaf('name', f'm{i}')]} for i in range(25)]},
+	]},
+]
+
+
 def synthetic_tree(spec: dict[str, Any]) -> dict[str, Any]:
 	rng = random.Random(spec['seed'])
 	tags = spec.get('tags') or GRAMMAR_TAGS
@@ -295,7 +322,7 @@ def tree_task(case: dict[str, Any]):
 			root = make_module_di(app, module).resolve(Entry)
 		else:
 			module = '__synthetic__'
-			root = EntryOfDict(synthetic_tree(tree))
+			root = EntryOfDict(tree['tree'] if tree['kind'] == 'explicit' else synthetic_tree(tree))
 		raw = raw_walk(root)
 		mapping = app.resolve(SymbolMapping)
 		accepted = {tag for tags in mapping.symbols.values() for tag in tags}
@@ -448,7 +475,7 @@ class C10(Engine):
 		cases: list[dict[str, Any]] = []
 		rng = random.Random(7)
 		pool = pools.fixed_pool(0)
-		for tree in [{'kind': 'module', 'module': m} for m in pool['modules'] + LIB_MODULES + sorted(ZOO)] + [{'kind': 'synthetic', 'seed': s, 'depth': 4, 'fanout': 4} for s in range(4)]:
+		for tree in [{'kind': 'module', 'module': m} for m in pool['modules'] + LIB_MODULES + sorted(ZOO)] + [{'kind': 'synthetic', 'seed': s, 'depth': 4, 'fanout': 4} for s in range(4)] + [{'kind': 'explicit', 'tree': t} for t in EXPLICIT_TREES]:
 			scheds = []
 			scheds.append([{'q': k, 'p': 0} for k in QUERY_KINDS if k != 'ancestor'] + [{'q': 'ancestor', 'p': 5, 'tag': 'file_input'}, {'q': 'ancestor', 'p': 5, 'tag': '@own'}, {'q': 'ancestor', 'p': 0, 'tag': '@own'}])
 			scheds.append([{'q': 'expand', 'p': 1}, {'q': 'children', 'p': 1}, {'q': 'expand', 'p': 1}, {'q': 'n.props', 'p': 1}, {'q': 'clear', 'p': 0}, {'q': 'children', 'p': 1}, {'q': 'by', 'p': 1}, {'q': 'by', 'p': 1}])
